@@ -203,7 +203,7 @@ def run(tier, seed, replay):
                     "fatal, other type); the rule order does not depend on the directory listing order",
                     res["bound"], res["cases"], res["violations"], nontrivial=res["nontrivial"],
                     samples=res["samples"], time_s=dt)
-    explained = any(i.status == "failed" for i in chk.items)
+    explained = chk.has_unlisted_failure()
     if res["violations"] and not explained:
         v = res["violations"][0]
         chk.report_violation("C06.bounded.histories", {"property": "C06", "obligation": "C06.bounded.histories",
